@@ -117,6 +117,17 @@ class Enum:
         return "%s::%s%s" % (self.adt.split("::")[-1], self.name, tuple(self.fields) if self.fields else "")
 
 
+class ElemRef:
+    """a reference to one element of a modelled mutable buffer (a Python list shared by every reference to it)"""
+    __slots__ = ("buf", "i")
+
+    def __init__(self, buf, i):
+        self.buf, self.i = buf, i
+
+    def __repr__(self):
+        return "&buf[%d]" % self.i
+
+
 class PyIter:
     """an iterator over known integers (mutable: `next` advances it in place)"""
     __slots__ = ("items", "pos")
@@ -175,6 +186,9 @@ class Evaluator:
             if e == "*":
                 if isinstance(val, tuple) and len(val) == 3 and val[0] == "const" and str(val[1]).startswith('b"'):
                     val = parse_byte_string(val[1])     # a byte-string literal: the pointee is the array of its bytes
+                    continue
+                if isinstance(val, ElemRef):
+                    val = val.buf[val.i]
                     continue
                 if not isinstance(val, Ref):
                     raise Unsupported("deref of non-reference %r" % (val,))
@@ -254,6 +268,9 @@ class Evaluator:
         # writes through projections: only tuple/struct field of a local, or deref of local ref
         if p[1] == "*":
             base = fr.env.get(p[0])
+            if isinstance(base, ElemRef) and len(p) == 2:
+                base.buf[base.i] = val
+                return
             if isinstance(base, Ref) and base.key[0] == "local":
                 f2 = self.frames[base.key[1]]
                 self.write_place(f2, [base.key[2]] + [list(x) if isinstance(x, tuple) else x for x in base.key[3:]] + p[2:], val)
@@ -608,6 +625,31 @@ class Evaluator:
             if all(isinstance(q, (int, float)) and not isinstance(q, bool) for q in (a, b)):
                 o = Enum("core::cmp::Ordering", 0 if a < b else (1 if a == b else 2), "Less" if a < b else ("Equal" if a == b else "Greater"), [])
                 return o if sh0.endswith("::cmp") else Enum("core::option::Option", 1, "Some", [o])
+        if (short.startswith("core::f32::<impl f32>::") or short.startswith("std::f32::<impl f32>::") or short.startswith("core::f64::<impl f64>::")
+                or short.startswith("std::f64::<impl f64>::")) and args and all(isinstance(q, (int, float)) and not isinstance(q, bool) for q in args):
+            import math
+            fm = short.split("::")[-1]
+            x = float(args[0])
+            try:
+                one = {"abs": lambda: abs(x), "sqrt": lambda: math.sqrt(x) if x >= 0 else float("nan"), "exp": lambda: math.exp(x),
+                       "ln": lambda: math.log(x) if x > 0 else (float("-inf") if x == 0 else float("nan")), "log2": lambda: math.log2(x) if x > 0 else float("nan"),
+                       "exp2": lambda: 2.0 ** x, "recip": lambda: 1.0 / x, "floor": lambda: float(math.floor(x)), "ceil": lambda: float(math.ceil(x)),
+                       "round": lambda: float(math.floor(abs(x) + 0.5)) * (1 if x >= 0 else -1), "trunc": lambda: float(math.trunc(x)),
+                       "signum": lambda: math.copysign(1.0, x), "is_nan": lambda: int(x != x), "is_finite": lambda: int(math.isfinite(x)),
+                       "cbrt": lambda: math.copysign(abs(x) ** (1.0 / 3.0), x), "to_bits": None}
+                two = {"powf": lambda: math.pow(x, float(args[1])) if len(args) > 1 else None, "copysign": lambda: math.copysign(x, float(args[1])),
+                       "powi": lambda: x ** int(args[1]), "min": lambda: min(x, float(args[1])), "max": lambda: max(x, float(args[1]))}
+                if len(args) == 1 and one.get(fm):
+                    return one[fm]()
+                if len(args) == 2 and fm in two:
+                    return two[fm]()
+                if len(args) == 3 and fm == "mul_add":
+                    return x * float(args[1]) + float(args[2])
+                if len(args) == 1 and fm == "to_bits":
+                    import struct
+                    return struct.unpack("<I", struct.pack("<f", x))[0] if "f32" in short else struct.unpack("<Q", struct.pack("<d", x))[0]
+            except (ValueError, OverflowError, ZeroDivisionError):
+                raise Unsupported("float operation %s out of domain" % fm)
         if short in ("core::f32::<impl f32>::clamp", "core::f64::<impl f64>::clamp") and len(args) == 3 and all(isinstance(q, (int, float)) for q in args):
             x = float(args[0])
             return x if x != x else max(float(args[1]), min(float(args[2]), x))
@@ -650,6 +692,37 @@ class Evaluator:
                 return args[0]          # Range<int> is its own iterator (handled in `next`)
             if isinstance(args[0], tuple) and len(args[0]) == 3 and args[0][0] == "rangei":
                 return self._as_iter(args[0])
+        if sh0 in ("core::iter::traits::collect::IntoIterator::into_iter", "core::slice::<impl [T]>::iter_mut") and len(args) == 1 and isinstance(args[0], list):
+            return PyIter([ElemRef(args[0], i) for i in range(len(args[0]))])
+        if sh0 in ("core::iter::traits::collect::IntoIterator::into_iter",) and len(args) == 1 and isinstance(args[0], tuple) \
+                and all(isinstance(q, (int, float)) and not isinstance(q, bool) for q in args[0]):
+            return PyIter(list(args[0]))
+        if sh0 in ("core::iter::traits::iterator::Iterator::rev", "core::iter::traits::iterator::Iterator::copied", "core::iter::traits::iterator::Iterator::cloned") \
+                and len(args) == 1 and isinstance(args[0], PyIter):
+            rest = args[0].items[args[0].pos:]
+            return PyIter(list(reversed(rest)) if sh0.endswith("rev") else rest)
+        if sh0 in ("core::iter::traits::iterator::Iterator::reduce", "core::iter::traits::iterator::Iterator::fold", "core::iter::traits::iterator::Iterator::sum",
+                   "core::iter::traits::iterator::Iterator::max", "core::iter::traits::iterator::Iterator::min", "core::iter::traits::iterator::Iterator::count") \
+                and args and isinstance(args[0], PyIter):
+            rest = args[0].items[args[0].pos:]
+            args[0].pos = len(args[0].items)
+            fm = sh0.split("::")[-1]
+            if fm == "sum":
+                return sum(rest)
+            if fm == "count":
+                return len(rest)
+            if fm in ("max", "min"):
+                return Enum("core::option::Option", 1, "Some", [max(rest) if fm == "max" else min(rest)]) if rest else Enum("core::option::Option", 0, "None", [])
+            cl = args[-1]
+            if fm == "reduce":
+                if not rest:
+                    return Enum("core::option::Option", 0, "None", [])
+                acc, rest = rest[0], rest[1:]
+            else:
+                acc = args[1]
+            for it in rest:
+                acc = self._call_closure(cl, [acc, it])
+            return Enum("core::option::Option", 1, "Some", [acc]) if fm == "reduce" else acc
         if sh0 == "core::iter::traits::iterator::Iterator::next" and len(args) == 1 and isinstance(args[0], Ref):
             v = self.deref_val(args[0])
             if isinstance(v, PyIter):
@@ -707,6 +780,19 @@ class Evaluator:
             return ()
         raise Unsupported("call to %s" % short)
 
+    def _call_closure(self, cl, cargs):
+        f3 = self.prog.fn(getattr(cl, "closure", "") or "") if isinstance(cl, Struct) else None
+        if f3 is None:
+            raise Unsupported("call of an unknown closure")
+        if str(f3.local_ty(1)).startswith("&"):
+            holder = Frame(f3)
+            self.frames[holder.id] = holder
+            holder.env[10 ** 7] = cl
+            first = Ref(("local", holder.id, 10 ** 7))
+        else:
+            first = cl
+        return self.call_fn(f3, [first] + list(cargs))
+
     def _as_iter(self, v):
         if isinstance(v, PyIter):
             return v
@@ -717,6 +803,8 @@ class Evaluator:
         return None
 
     def deref_val(self, v):
+        if isinstance(v, ElemRef):
+            return v.buf[v.i]
         if isinstance(v, Ref):
             k = v.key
             if k[0] == "ext":
